@@ -25,7 +25,7 @@ PROPS = {
     "C14": {"families": [("c14sim", 1)], "judge": ["C14"], "quick_s": 12, "thorough_s": 300, "post": "c14_differential"},
     "C17": {"families": [("c17lib", 1), ("faultfree", 1), ("mixed", 1)], "judge": ["C17"], "quick_s": 20, "thorough_s": 600},
     "C18": {"families": [("mixed", 1), ("faultfree", 1), ("c05ack", 1)], "judge": ["C18"], "quick_s": 20, "thorough_s": 600},
-    "C19": {"families": [("c08", 2), ("mixed", 1), ("faultfree", 1)], "judge": ["C19"], "quick_s": 20, "thorough_s": 600},
+    "C19": {"families": [("c08", 2), ("mixed", 1), ("faultfree", 1), ("ctxcancel", 1)], "judge": ["C19"], "quick_s": 20, "thorough_s": 600},
 }
 
 
